@@ -243,8 +243,9 @@ def fit_cause(imputed_products):
 def check_vector(job):
     """worker: one element vector x all charges through (ii) (iii) (iv).
     job = (db name, ((element, n), ...), full, charges)   full: run every configuration even when
-    the raw search finds nothing (otherwise the remaining configurations, which repeat the
-    same search, are run only for vectors with at least one completion)."""
+    the unranked select="all" search finds nothing (otherwise the remaining configurations
+    and the imputer, which repeat the same depth-first search, are run only for vectors
+    with at least one completion)."""
     from synrbl.SynRuleImputer.synthetic_rule_matcher import SyntheticRuleMatcher
     from synrbl.SynRuleImputer.synthetic_rule_imputer import SyntheticRuleImputer
     from synrbl.SynRuleImputer.synthetic_rule_constraint import RuleConstraint
@@ -288,12 +289,13 @@ def check_vector(job):
             return sols
 
         raw_all = run_match("all", False)
-        raw_best = run_match("best", False)
-        some = any(len(s) > 0 for s in raw_all) or any(len(s) > 0 for s in raw_best)
-        if some:
-            cnt["nontrivial"] += 1
+        some = any(len(s) > 0 for s in raw_all)
         if not (some or full):
             continue
+        raw_best = run_match("best", False)
+        some = some or any(len(s) > 0 for s in raw_best)
+        if some:
+            cnt["nontrivial"] += 1
         for sel in SELECTS:
             for rk in RANKINGS:
                 if rk is False:
@@ -636,7 +638,9 @@ def run(tier, seed):
 
     # (ii)-(iv)
     jobs, full_bound, bound = spaces(tier)
-    r = pmap("checks.c08:check_vector", jobs, chunk=40, seed=seed, timeout=7200)
+    # costliest vectors first, small chunks: the search is exponential in the vector size
+    order = sorted(jobs, key=lambda j: (-n_atoms(j[1]), j))
+    r = pmap("checks.c08:check_vector", order, chunk=8, seed=seed, timeout=7200)
     tot = {}
     bads = []
     for cnt, bb in r:
@@ -702,8 +706,10 @@ def run(tier, seed):
         "rule": "every record of both rule databases; every imbalance vector with <= {b} atoms over "
                 "each database's own element set ({ns} elements shipped, {na} automated) x Q in -2..2, "
                 "plus H4..H8 with <= 2 other atoms, through match() for select all/best x rankings "
-                "{rk} (for vectors of more than {fb} atoms without any completion only the two "
-                "unranked searches are run: the ranked ones repeat the same search), through "
+                "{rk} (for vectors of more than {fb} atoms for which the unranked select=all search "
+                "returns no completion the other configurations and the imputer, which repeat "
+                "the same depth-first search, are skipped), sums of up to {ks} database compounds with their own "
+                "charge (size limits {sm}), through "
                 "single_impute for both sides (configs {ic}, bases {bs}) and RuleConstraint.fit with "
                 "the ban list of rule_based.py; every reaction L>>R with L,R multisets of size 1..2 "
                 "over the pipeline alphabet plus {nh} halogen-elimination reactions through "
@@ -711,7 +717,8 @@ def run(tier, seed):
                 "least one non-empty completion was returned + distinct inputs returned solved by the "
                 "rule-based stage without a redox template.".format(
                     b=bound, fb=full_bound, ns=len(db_elements("shipped")), na=len(db_elements("automated")),
-                    rk=list(RANKINGS), ic=list(IMPUTE_CONFIGS), bs=list(BASES), nh=len(HALOGEN_RXNS)),
+                    rk=list(RANKINGS), ks=max(k for k, _ in SUMS[(tier, "shipped")]),
+                    sm={n: list(SUMS[(tier, n)]) for n in ("shipped", "automated")}, ic=list(IMPUTE_CONFIGS), bs=list(BASES), nh=len(HALOGEN_RXNS)),
         "samples": [
             {"db": jobs[1][0], "vector": dict(jobs[1][1])},
             {"db": jobs[len(jobs) // 3][0], "vector": dict(jobs[len(jobs) // 3][1])},
@@ -731,6 +738,7 @@ def run(tier, seed):
         "max_atoms_bound": bound,
         "max_atoms_bound_all_configurations": full_bound,
         "hrich_max_H": 8,
+        "compound_sum_limits": {n: [list(x) for x in SUMS[(tier, n)]] for n in ("shipped", "automated")},
         "pipeline_rows": n_rows,
         "pipeline_rule_based_rows": len(rb_rows),
         "pipeline_template_rows_skipped": n_templ,
